@@ -44,6 +44,8 @@ SITES = ["boot-failpoint", "boot-garbage", "gel-merge-candidates", "gel-apply-me
          "cache-invalidate", "store-batch", "store-all", "store-some", "sidecar"]
 
 
+# sites the current tree may not reach at all (no requirement on their hit counters): the trace sink with the quality layer ON
+OPTIONAL_SITES = ["quality-trace-enabled-path"]
 LATE_OK = {"hybrid-rerank", "fusion", "mmr", "quality-trace", "cache-invalidate", "sidecar", "llm-adapter-build"}
 
 
@@ -100,6 +102,10 @@ def site_cfgs(site, rng):
         # both quality operations fail in one request: the layer is as good as switched off
         on = {"t2": {"quality": {"enabled": True, "fusion": {"alpha_semantic": 0.6}, "mmr": {"enabled": True, "lambda": 0.5, "k": 3}}}}
         return on, {"t2": {"quality": {"enabled": False}}}
+    if site == "quality-trace-enabled-path":
+        both = {"t2": {"quality": {"enabled": True, "shadow": False, "fusion": {"alpha_semantic": 0.6}, "mmr": {"enabled": True, "lambda": 0.5, "k": 3}}},
+                "perf": {"enabled": True, "metrics": {"report_memory": True}}}
+        return both, copy.deepcopy(both)  # idle baseline: the same configuration with a working sink
     if site == "quality-trace":
         on = {"t2": {"quality": {"enabled": False, "shadow": True}}, "perf": {"enabled": True, "metrics": {"report_memory": True}}}
         base = copy.deepcopy(on)
@@ -172,7 +178,7 @@ def install(site, exc, hits, env, garbage=None):
         elif site == "fusion-and-mmr":
             st.enter_context(patched(qops, "fuse", boom))
             st.enter_context(patched(qops, "maybe_apply_mmr", boom))
-        elif site == "quality-trace":
+        elif site in ("quality-trace", "quality-trace-enabled-path"):
             st.enter_context(patched(qual, "_emit_quality_trace", boom))
         elif site == "cache-invalidate":
             st.enter_context(patched(cachem.CacheManager, "invalidate_namespace", boom))
@@ -290,7 +296,7 @@ def gen_case(rng, sites=None, exc_i=None, garbage=None):
     if sites is None:
         # combinations take at most one site per group whose off/idle baselines would contradict each other
 # (the boot legs keep the hybrid reranker healthy in both runs, so hybrid-rerank shares their group)
-        groups = [["boot-failpoint", "boot-garbage", "hybrid-rerank"], ["fusion", "mmr", "fusion-and-mmr", "quality-trace"], ["llm-adapter-build", "llm-adapter-ci-provider"], ["store-batch", "store-all", "store-some"]]
+        groups = [["boot-failpoint", "boot-garbage", "hybrid-rerank"], ["fusion", "mmr", "fusion-and-mmr", "quality-trace", "quality-trace-enabled-path"], ["llm-adapter-build", "llm-adapter-ci-provider"], ["store-batch", "store-all", "store-some"]]
         pool = [s for s in SITES if not any(s in g for g in groups)] + [rng.choice(g) for g in groups]
         sites = rng.sample(pool, rng.randint(2, 4))
     if sites == ["natural"]:
@@ -619,6 +625,10 @@ def main(tier: str, seed: int):
                 plan.append((["boot-garbage"], rng.randrange(len(EXCS)), (gk, gn)))
     for _ in range(40 if tier == "quick" else 10000):
         plan.append((None, None))
+    for s in OPTIONAL_SITES:
+        for e in rng.sample(range(len(EXCS)), ntypes):
+            for _ in range(reps):
+                plan.append(([s], e))
     for g_ in range(60 if tier == "quick" else 6000):
         plan.append((["natural"], g_))  # the second field walks the grid of boundary settings
     # the subsystem works first and fails from a later turn on, on one ctx object per agent: every site that allows it
